@@ -21,6 +21,13 @@ def doubleBackslash (b : Bytes) : Bytes := b.flatMap (fun x => if x = 92 then [9
 def fieldsOfStep (kind : String) (st : String × String × String × String) (v : Val) : Option Fields :=
   let codec := st.1
   let field := st.2.1
+  if codec = "unpackIPSECGateway" then
+    -- the gateway of IPSECKEY / AMTRELAY fills two fields: an address or a host name
+    match v with
+    | .b bs => some [("GatewayAddr", .ip bs), ("GatewayHost", .s [])]
+    | .t text => some [("GatewayAddr", .ip []), ("GatewayHost", .s text)]
+    | _ => none
+  else
   match v with
   | .n x => some [(field, .n x)]
   | .b bs =>
@@ -31,11 +38,8 @@ def fieldsOfStep (kind : String) (st : String × String × String × String) (v 
     else if codec = "unpackStringBase64" then some [(field, .s (filler ((bs.length + 2) / 3 * 4)))]
     else if codec = "unpackStringBase32" then some [(field, .s (filler ((8 * bs.length + 4) / 5)))]
     else if codec = "unpackStringAny" then some [(field, .s bs)]
-    else if codec = "unpackIPSECGateway" then some [("GatewayAddr", .ip bs), ("GatewayHost", .s [])]
     else none
-  | .t text =>
-    if codec = "unpackIPSECGateway" then some [("GatewayAddr", .ip []), ("GatewayHost", .s text)]
-    else some [(field, .s text)]
+  | .t text => some [(field, .s text)]
   | .ss strs => some [(field, .ss (strs.map txtEscape))]
   | .ts types => some [(field, .ts types)]
   | .ns names => some [(field, .ss names)]
